@@ -34,7 +34,7 @@ def generate(rng, seed, index, tier):
         fam = "qp"
     spec, x0, y0 = gen.gen_problem(rng, fam)
     if not integ:
-        x0 = gen.magnify(rng, spec, x0, p=0.15)
+        x0 = gen.magnify(rng, spec, x0, p=0.25)
     if integ:
         kw = {"iteration_limit": 200}
         if rng.random() < 0.3:
